@@ -49,16 +49,15 @@ func init() {
 		if err != nil {
 			return "err"
 		}
-		res := "ok"
 		// through the wire format, as a verifier receives it
 		v := executors["verifyD"](Op{"proof": any(map[string]any(proofDTree(proof))), "key": o["key"], "context": hx(ctx), "nonce": hx(nonce), "issig": false})
-		res += " " + v
-		if proof.RangeProofs[1][0].Proves(st) {
-			res += " proves"
-		} else {
-			res += " not-proves"
+		if v != "accept" {
+			return "built-but-" + v
 		}
-		return res
+		if !proof.RangeProofs[1][0].Proves(st) {
+			return "built-but-not-reported"
+		}
+		return "ok accept proves"
 	}
 }
 
@@ -361,8 +360,12 @@ func genC13(g *Rng, tier string, emit func(Op)) {
 				emit(mk(sign, 1, bound, m, tableLimit+1, fmt.Sprintf("window-3sq")))
 			}
 		}
-		// factors 1..8 with four squares
+		// factors 1..8 with four squares, also for attributes at the top of the legal range
+		big1 := new(big.Int).Sub(new(big.Int).Lsh(bi(1), kp.pk.Params.Lm), bi(189))
 		for f := uint64(1); f <= 8; f++ {
+			fb := new(big.Int).Mul(big1, new(big.Int).SetUint64(f))
+			emit(mk(1, f, new(big.Int).Sub(fb, bi(10)), big1, 0, "factor-ge-large"))
+			emit(mk(-1, f, new(big.Int).Add(fb, bi(10)), big1, 0, "factor-le-large"))
 			fm := new(big.Int).Mul(m, new(big.Int).SetUint64(f))
 			for _, off := range []int64{0, 1, 7, 1000003} {
 				emit(mk(1, f, new(big.Int).Sub(fm, bi(off)), m, 0, "factor-ge"))
